@@ -14,6 +14,10 @@
 EXTENDS ListRange, Json
 
 MCSlots == <<300, 43200, 43500, 86300>>
+\* second family: the first write-out of a day happens exactly at midnight (the periodic write-out on
+\* the day boundary goes into the new day's directory): a block whose time IS the day start, which is
+\* also a point of the grid (86400)
+MCSlotsMidnight == <<0, 43200, 43500, 86300>>
 
 MCGridSeq == <<-1000, 20000, 86200, 86300, 86400, 86700, 106400, 129600, 129750, 129900, 146400,
                172600, 172700, 216000, 262800>>
